@@ -9,14 +9,27 @@ ELEMS = [(2, 1), (2, 0), (1, 1), (1, 0), (0, 1), (0, 0)]
 SMAX = 2 * N + 1
 
 
-@harness
-def actions(v0: int, v1: int, v2: int, z: int, g: int, p1_1: int, p2_1: int, p1_2: int, p2_2: int, T1: bool, T2: bool,
-            a: int, b: int, step: int) -> bool:
-    a, b = pick(a, 0, 5), pick(b, -1, 5)
+PRE = ["clean model", "an element of c0 holds a user input", "an element of c1 holds a user input", "c0 uncached", "c1 uncached", "c0 and c1 uncached"]
+
+
+def _body(V, P1, P2, T, z, g, a, b, step, pre=0, w=0, ti=0):
     targets = [ELEMS[a]] + ([ELEMS[b]] if b >= 0 and b != a else [])
     label("targets %s" % targets)
-    d = Dag(N)
-    d.bind([v0, v1, v2], [-1, p1_1, p1_2], [-1, p2_1, p2_2], [False, T1, T2], z, g)
+    cached = [pre not in (3, 5), pre not in (4, 5), True]
+    if any(not cached[k] for (k, t) in targets):
+        return True                      # targets are elements of cached cells
+    d = Dag(N, cached=cached)
+    d.bind(V, P1, P2, T, z, g)
+    if pre:
+        label(PRE[pre])
+    if pre in (1, 2):
+        kin = pre - 1
+        if (kin, ti) in targets:
+            return True                  # (targets that are inputs: outside the claim)
+        d.cells[kin][ti] = w
+        d.inputs[(kin, ti)] = w
+    with notrace():
+        held_before = d.held()
     nodes = [d.cells[k].node(t) for (k, t) in targets]
     acts = d.m.generate_actions(nodes, step_size=step)
     with notrace():
@@ -25,13 +38,13 @@ def actions(v0: int, v1: int, v2: int, z: int, g: int, p1_1: int, p2_1: int, p1_
         return False
     with notrace():
         held0 = d.held()
-    if not check(len(held0) == 0, "generate_actions leaves no calculated value behind", lambda: held0):
+    if not check(held0 == held_before, "generate_actions leaves no calculated value behind (and keeps what was held)", lambda: (held0, held_before)):
         return False
     # ---- plan: every dependency in exactly one calc step, after all the elements it depends on
     need = []
     for (k, t) in targets:
         for x in d.closure(k, t):
-            if x not in need:
+            if x not in need and cached[x[0]] and x not in d.inputs:
                 need.append(x)
     with notrace():
         calc = []
@@ -45,8 +58,17 @@ def actions(v0: int, v1: int, v2: int, z: int, g: int, p1_1: int, p2_1: int, p1_
         return False
     if not check(once, "every needed element appears in exactly one calc step", lambda: (calc, need)):
         return False
-    for i, x in enumerate(calc):
+    def cached_callees(x):
+        """callees with uncached cells looked through, inputs excluded (they are not calculated)"""
+        out = []
         for c in d.callees(*x):
+            if not cached[c[0]]:
+                out.extend(cached_callees(c))
+            elif c not in d.inputs:
+                out.append(c)
+        return out
+    for i, x in enumerate(calc):
+        for c in cached_callees(x):
             with notrace():
                 okord = c in calc[:i]
             if not check(okord, "element scheduled after its dependencies", lambda: (x, c, calc)):
@@ -61,10 +83,10 @@ def actions(v0: int, v1: int, v2: int, z: int, g: int, p1_1: int, p2_1: int, p1_
     if not check(r[0] == "ok", "execute_actions raised", lambda: r):
         return False
     with notrace():
-        ran = [h for h in ctx.hits[n0:]]
+        ran = [h for h in ctx.hits[n0:] if cached[h[0]]]          # (uncached cells run once per call)
         nodup = len(set(ran)) == len(ran) and sorted(ran) == sorted(need)
         held = d.held()
-        okheld = held == set(targets)
+        okheld = held == set(targets) | held_before
     if not check(nodup, "each needed element computed exactly once during the run", lambda: (ran, need)):
         return False
     if not check(okheld, "only the targets hold values after the run", lambda: (held, targets)):
@@ -74,6 +96,21 @@ def actions(v0: int, v1: int, v2: int, z: int, g: int, p1_1: int, p2_1: int, p1_
         if not check(v == d.val(k, t), "target value == direct evaluation c%d(%d)" % (k, t)):
             return False
     return check(executor_idle(), "executor idle after the run")
+
+
+@harness
+def actions(v0: int, v1: int, v2: int, z: int, g: int, p1_1: int, p2_1: int, p1_2: int, p2_2: int, T1: bool, T2: bool,
+            a: int, b: int, step: int) -> bool:
+    a, b = pick(a, 0, 5), pick(b, -1, 5)
+    return _body([v0, v1, v2], [-1, p1_1, p1_2], [-1, p2_1, p2_2], [False, T1, T2], z, g, a, b, step)
+
+
+@harness
+def prestate(v0: int, v1: int, v2: int, z: int, g: int, p1_1: int, p2_1: int, p1_2: int, p2_2: int, T1: bool, T2: bool,
+             a: int, b: int, step: int, pre: int, w: int, ti: int) -> bool:
+    """The same on a model that is not clean: a user input somewhere below the targets, or uncached cells on the way."""
+    a, b, pre, ti = pick(a, 0, 5), pick(b, -1, 5), pick(pre, 1, 5), pick(ti, 0, 1)
+    return _body([v0, v1, v2], [-1, p1_1, p1_2], [-1, p2_1, p2_2], [False, T1, T2], z, g, a, b, step, pre, w, ti)
 
 
 def realize_int(x):
@@ -99,4 +136,12 @@ QUERIES = [
                                "dag": "pointers symbolic"},
           outside=["more than two targets", "targets that are inputs", "N > 3"]),
 ]
+QUERIES.append(
+    Query("prestate", prestate,
+          pre=dag_pre(N) + ["0 <= a < 6", "-1 <= b < 6", "1 <= step <= %d" % SMAX, "1 <= pre <= 5", "0 <= ti <= 1"],
+          partitions=lambda tier, seed: (product(a=[0], b=[-1, 1], pre=[1, 2, 3, 4, 5], T1=[False]) if tier == "quick" else product(a=[0, 1, 2], b=[-1, 1, 3, 5], pre=[1, 2, 3, 4, 5])),
+          natives=[dict(_NAT, a=0, b=-1, step=s_, pre=p_, w=100, ti=t_) for (s_, p_, t_) in ((2, 1, 0), (1, 1, 1), (3, 2, 0), (2, 3, 0), (1, 4, 0), (7, 5, 0), (2, 2, 1))] +
+                  [dict(_NAT, p2_2=-1, a=0, b=1, step=2, pre=4, w=100, ti=0)],
+          bounds=lambda tier: {"pre_states": PRE[1:], "input_value": "unbounded symbolic int", "targets": "c2(1) alone or with c2(0) (quick)", "step_size": "1..%d symbolic" % SMAX},
+          outside=["values computed (not assigned) before generate_actions", "targets that are inputs or elements of uncached cells"]))
 BUDGET = {"quick": 400, "thorough": 1200}
